@@ -97,7 +97,11 @@ def _obs_fix(o):
 def build_case(args):
     prop, cid, src, base, incl, seed, identity = args
     rng = random.Random(seed)
-    cz = decio.Concretiser(rng, base=None if identity else base, conj_matters=(prop in ("C03", "C08C") or bool(base)))
+    # every other case draws its spellings from a vocabulary shared with its neighbours (64 consecutive cases): one
+    # process then reads many files made of the same words with different meanings (see decio.Concretiser)
+    vocab = f"{seed - cid}/{cid // 64}" if isinstance(cid, int) and cid % 2 == 1 and not identity else None
+    cz = decio.Concretiser(rng, base=None if identity else base, conj_matters=(prop in ("C03", "C08C") or bool(base)),
+                           vocab=vocab)
     if identity:
         cz.names = IdentityMap()
     case = {"prop": prop, "cid": cid, "src": src, "base": base, "incl": incl}
@@ -108,6 +112,21 @@ def build_case(args):
         nocd_text = decio.render_file(cz, [s for s in src if s["k"] != "CDecay"])
         nocd, _ = decio.observe(nocd_text, cz, True)
         case.update(on=_obs_fix(on), off=_obs_fix(off), nocd=_obs_fix(nocd))
+        # a sibling read in the same process right after, same names: the ChargeConj statements dropped, or their
+        # first names replaced by fresh ones - what a name's conjugate is belongs to the file, not to the process
+        sibs = []
+        if any(st["k"] == "ChargeConj" for st in src) and cid % 2 == 0:
+            if cid % 4 == 0:
+                ssrc = [st for st in src if st["k"] != "ChargeConj"]
+            else:
+                ssrc = [dict(st, m="zz" + st["m"]) if st["k"] == "ChargeConj" else st for st in src]
+            stext = decio.render_file(cz, ssrc)
+            son, _ = decio.observe(stext, cz, True)
+            soff, _ = decio.observe(stext, cz, False)
+            snocd, _ = decio.observe(decio.render_file(cz, [st for st in ssrc if st["k"] != "CDecay"]), cz, True)
+            sibs.append({"prop": prop, "cid": f"{cid}s", "src": ssrc, "base": base, "incl": incl, "on": _obs_fix(son),
+                         "off": _obs_fix(soff), "nocd": _obs_fix(snocd), "text": stext})
+        case["siblings"] = sibs
     elif prop == "C05":
         xsrc = expand_defs(src)
         xtext = decio.render_file(cz, xsrc)
